@@ -174,6 +174,6 @@ def wf (y : Style) (st : State) : Bool :=
   st.adminName.all okText && okText st.gameMode && okText st.gameVersion && st.playersMaximum < 2 ^ 32 &&
   st.playersMinimum.all (· < 2 ^ 8) && st.players.all wfPlayer && st.extras.all wfExtra &&
   distinctKeys st.extras && y.queryId < 2 ^ 64 && y.pwStyle < 3 &&
-  (script y st).all (fun d => d.length ≤ 1024)
+  (script y st).all (fun d => d.length ≤ 2048)
 
 end Gd.Gs1.Spec
